@@ -69,7 +69,6 @@ package blocktimeindex
 //@   ensures result1 == nil ==> forall k int :: 0 <= k && k < len(i.values) ==> 0 <= i.values[k] && i.values[k] <= 4294967295
 //@   ensures result1 != nil ==> result0 == nil
 //@   loop 0 invariant forall k int :: 0 <= k && k < rangeidx0 ==> 0 <= i.values[k] && i.values[k] <= 4294967295
-//@   loop 0 invariant written(writer) == 46 + 4*rangeidx0
 
 //@ func (*Index) MarshalBinary
 //@   mode int
@@ -122,7 +121,8 @@ package blocktimeindex
 
 //@ func (*Index) FromReader
 //@   mode int
-//@   modifies i
+//@   # written(r): the generic model of io.ReadAll(r) also havocs the writer ghost of r (engine over-approximation)
+//@   modifies i, consumed(r), written(r)
 //@   ensures result == nil ==> decodedOK(i) && fresh(i.values) && validIndex(i)
 //@   ensures result == nil ==> forall k int :: 0 <= k && k < len(i.values) ==> 0 <= i.values[k] && i.values[k] <= 4294967295
 
@@ -140,6 +140,7 @@ package blocktimeindex
 
 //@ func FromReader
 //@   mode int
+//@   modifies consumed(r), written(r)
 //@   ensures (result1 == nil) == (result0 != nil)
 //@   ensures result1 == nil ==> fresh(result0) && decodedOK(result0) && validIndex(result0)
 //@   ensures result1 == nil ==> forall k int :: 0 <= k && k < len(result0.values) ==> 0 <= result0.values[k] && result0.values[k] <= 4294967295
